@@ -72,7 +72,10 @@ def handle (j : Json) : Except String Json := do
     let cfg : Cfg := { attrs := attrs, lazy := fun a => lazy.contains a, volatile := fun a => vol.contains a,
                        attrOpt := fun a => !nonopt.contains a, sessOpt := fun s => sessOpt.getD s true }
     let objs0 ← natList j "objs"
-    let cfg : Cfg := { cfg with objs := objs0 }
+    let sessImm ← match j.getObjVal? "sessImm" with
+      | .ok (.arr a) => a.toList.mapM (fun x => (fromJson? x : Except String Bool))
+      | _ => pure []
+    let cfg : Cfg := { cfg with objs := objs0, sessImm := fun s => sessImm.getD s false }
     let rows ← (← argArr j "store").mapM (fun r => do
       match r with
       | .arr #[o, a, v] => pure ((← fromJson? o : Nat), (← fromJson? a : Nat), (← fromJson? v : Int))
